@@ -40,20 +40,108 @@ package printer
 //@   requires p != nil
 //@   modifies p.count
 //
+// printTransaction: after the optional addon lines, the header is written with the format `%s "%s"` from
+// the transaction's own date text and its own description text - the description goes between plain
+// double quotes, unescaped, exactly as the parser reads it back - and then every booking once, in order.
 //@ func (*Printer).printTransaction
 //@   requires p != nil && prTransaction(t)
 //@   modifies p.count
+//@   callback Fprintf=0
+//@   callback printPosting=0
+//@   callback printAccrual=0
+//@   ghost hdr int = 0
+//@   ensures [C08] @header: result == nil ==> old(tlen()) <= hdr && hdr < tlen() && tkind(hdr) == kind("Fprintf") && targ("Fprintf", 1, hdr) == "%s \"%s\""
+//@        && len(targ("Fprintf", 2, hdr)) == 2 && typeIs(targ("Fprintf", 2, hdr)[0], "string") && typeIs(targ("Fprintf", 2, hdr)[1], "string")
+//@        && dyn(targ("Fprintf", 2, hdr)[0], "string") == t.Date.Range.Text[t.Date.Range.Start:t.Date.Range.End]
+//@        && dyn(targ("Fprintf", 2, hdr)[1], "string") == t.Description.Content.Text[t.Description.Content.Start:t.Description.Content.End]
+//@   ensures [C08] @bookings: result == nil ==> tlen() == hdr + 1 + len(t.Bookings)
+//@        && (forall k int :: {t.Bookings[k]} 0 <= k && k < len(t.Bookings) ==> tkind(hdr + 1 + k) == kind("printPosting") && targ("printPosting", 0, hdr + 1 + k) == t.Bookings[k])
 //@   loop 1 invariant 0 <= $i && $i <= len($range)
-//@   loop 2 invariant 0 <= $i && $i <= len($range)
+//@   loop 2 ghost hdr := entry(tlen()) - 1
+//@   loop 2 invariant 0 <= $i && $i <= len($range) && $range == t.Bookings && tlen() == entry(tlen()) + $i
+//@   loop 2 invariant forall k int :: {t.Bookings[k]} 0 <= k && k < $i ==> tkind(entry(tlen()) + k) == kind("printPosting") && targ("printPosting", 0, entry(tlen()) + k) == t.Bookings[k]
+//
+//
+// The small directive printers: each writes ONE formatted item whose format string and arguments are
+// fixed here - every argument is the text of the directive's own field (so nothing of the directive is
+// dropped, swapped or re-encoded on the way to the formatter; what fmt does with a %s is trusted).
+//@ func (*Printer).printOpen
+//@   requires p != nil && prOpen(o)
+//@   modifies p.count
+//@   callback Fprintf=0
+//@   ensures [C08] @format: tlen() == old(tlen()) + 1 && targ("Fprintf", 1, old(tlen())) == "%s open %s" && len(targ("Fprintf", 2, old(tlen()))) == 2
+//@        && typeIs(targ("Fprintf", 2, old(tlen()))[0], "string") && dyn(targ("Fprintf", 2, old(tlen()))[0], "string") == o.Date.Range.Text[o.Date.Range.Start:o.Date.Range.End]
+//@        && typeIs(targ("Fprintf", 2, old(tlen()))[1], "string") && dyn(targ("Fprintf", 2, old(tlen()))[1], "string") == o.Account.Range.Text[o.Account.Range.Start:o.Account.Range.End]
+//
+//@ func (*Printer).printClose
+//@   requires p != nil && prClose(c)
+//@   modifies p.count
+//@   callback Fprintf=0
+//@   ensures [C08] @format: tlen() == old(tlen()) + 1 && targ("Fprintf", 1, old(tlen())) == "%s close %s" && len(targ("Fprintf", 2, old(tlen()))) == 2
+//@        && typeIs(targ("Fprintf", 2, old(tlen()))[0], "string") && dyn(targ("Fprintf", 2, old(tlen()))[0], "string") == c.Date.Range.Text[c.Date.Range.Start:c.Date.Range.End]
+//@        && typeIs(targ("Fprintf", 2, old(tlen()))[1], "string") && dyn(targ("Fprintf", 2, old(tlen()))[1], "string") == c.Account.Range.Text[c.Account.Range.Start:c.Account.Range.End]
+//
+//@ func (*Printer).printPrice
+//@   requires p != nil && prPrice(pr)
+//@   modifies p.count
+//@   callback Fprintf=0
+//@   ensures [C08] @format: tlen() == old(tlen()) + 1 && targ("Fprintf", 1, old(tlen())) == "%s price %s %s %s" && len(targ("Fprintf", 2, old(tlen()))) == 4
+//@        && typeIs(targ("Fprintf", 2, old(tlen()))[0], "string") && dyn(targ("Fprintf", 2, old(tlen()))[0], "string") == pr.Date.Range.Text[pr.Date.Range.Start:pr.Date.Range.End]
+//@        && typeIs(targ("Fprintf", 2, old(tlen()))[1], "string") && dyn(targ("Fprintf", 2, old(tlen()))[1], "string") == pr.Commodity.Range.Text[pr.Commodity.Range.Start:pr.Commodity.Range.End]
+//@        && typeIs(targ("Fprintf", 2, old(tlen()))[2], "string") && dyn(targ("Fprintf", 2, old(tlen()))[2], "string") == pr.Price.Range.Text[pr.Price.Range.Start:pr.Price.Range.End]
+//@        && typeIs(targ("Fprintf", 2, old(tlen()))[3], "string") && dyn(targ("Fprintf", 2, old(tlen()))[3], "string") == pr.Target.Range.Text[pr.Target.Range.Start:pr.Target.Range.End]
+//
+//@ func (*Printer).printInclude
+//@   requires p != nil && prInclude(i)
+//@   modifies p.count
+//@   callback Fprintf=0
+//@   ensures [C08] @format: tlen() == old(tlen()) + 1 && targ("Fprintf", 1, old(tlen())) == "include \"%s\"" && len(targ("Fprintf", 2, old(tlen()))) == 1
+//@        && typeIs(targ("Fprintf", 2, old(tlen()))[0], "string") && dyn(targ("Fprintf", 2, old(tlen()))[0], "string") == i.IncludePath.Content.Text[i.IncludePath.Content.Start:i.IncludePath.Content.End]
+//
+//@ func (*Printer).printAccrual
+//@   requires p != nil && prAccrual(a)
+//@   modifies p.count
+//@   callback Fprintf=0
+//@   ensures [C08] @format: tlen() == old(tlen()) + 1 && targ("Fprintf", 1, old(tlen())) == "@accrue %s %s %s %s\n" && len(targ("Fprintf", 2, old(tlen()))) == 4
+//@        && typeIs(targ("Fprintf", 2, old(tlen()))[0], "string") && dyn(targ("Fprintf", 2, old(tlen()))[0], "string") == a.Interval.Range.Text[a.Interval.Range.Start:a.Interval.Range.End]
+//@        && typeIs(targ("Fprintf", 2, old(tlen()))[1], "string") && dyn(targ("Fprintf", 2, old(tlen()))[1], "string") == a.Start.Range.Text[a.Start.Range.Start:a.Start.Range.End]
+//@        && typeIs(targ("Fprintf", 2, old(tlen()))[2], "string") && dyn(targ("Fprintf", 2, old(tlen()))[2], "string") == a.End.Range.Text[a.End.Range.Start:a.End.Range.End]
+//@        && typeIs(targ("Fprintf", 2, old(tlen()))[3], "string") && dyn(targ("Fprintf", 2, old(tlen()))[3], "string") == a.Account.Range.Text[a.Account.Range.Start:a.Account.Range.End]
+//
+//@ func (*Printer).printPosting
+//@   requires p != nil && prBooking(t)
+//@   modifies p.count
+//@   callback Fprintf=0
+//@   ensures [C08] @format: tlen() == old(tlen()) + 1 && targ("Fprintf", 1, old(tlen())) == "%-*s %-*s %10s %s" && len(targ("Fprintf", 2, old(tlen()))) == 6
+//@        && typeIs(targ("Fprintf", 2, old(tlen()))[0], "int") && dyn(targ("Fprintf", 2, old(tlen()))[0], "int") == p.padding
+//@        && typeIs(targ("Fprintf", 2, old(tlen()))[1], "string") && dyn(targ("Fprintf", 2, old(tlen()))[1], "string") == t.Credit.Range.Text[t.Credit.Range.Start:t.Credit.Range.End]
+//@        && typeIs(targ("Fprintf", 2, old(tlen()))[2], "int") && dyn(targ("Fprintf", 2, old(tlen()))[2], "int") == p.padding
+//@        && typeIs(targ("Fprintf", 2, old(tlen()))[3], "string") && dyn(targ("Fprintf", 2, old(tlen()))[3], "string") == t.Debit.Range.Text[t.Debit.Range.Start:t.Debit.Range.End]
+//@        && typeIs(targ("Fprintf", 2, old(tlen()))[4], "string") && dyn(targ("Fprintf", 2, old(tlen()))[4], "string") == t.Quantity.Range.Text[t.Quantity.Range.Start:t.Quantity.Range.End]
+//@        && typeIs(targ("Fprintf", 2, old(tlen()))[5], "string") && dyn(targ("Fprintf", 2, old(tlen()))[5], "string") == t.Commodity.Range.Text[t.Commodity.Range.Start:t.Commodity.Range.End]
 //
 //@ func (*Printer).printAssertion
 //@   requires p != nil && prAssertion(a)
 //@   modifies p.count
 //@   loop 1 invariant 0 <= $i && $i <= len($range)
 //
+// printDirective dispatches on the directive's type to the printer of exactly that type, handing it the
+// directive itself, and returns its result.
 //@ func (*Printer).printDirective
 //@   requires p != nil && renderable(directive)
 //@   modifies p.count
+//@   callback printTransaction=0
+//@   callback printOpen=0
+//@   callback printClose=0
+//@   callback printAssertion=0
+//@   callback printInclude=0
+//@   callback printPrice=0
+//@   ensures [C08] @printTransaction: typeIs(directive.Directive, "directives.Transaction") ==> tlen() == old(tlen()) + 1 && tkind(old(tlen())) == kind("printTransaction") && targ("printTransaction", 0, old(tlen())) == dyn(directive.Directive, "directives.Transaction") && result == tres("printTransaction", old(tlen()))
+//@   ensures [C08] @printOpen: typeIs(directive.Directive, "directives.Open") ==> tlen() == old(tlen()) + 1 && tkind(old(tlen())) == kind("printOpen") && targ("printOpen", 0, old(tlen())) == dyn(directive.Directive, "directives.Open") && result == tres("printOpen", old(tlen()))
+//@   ensures [C08] @printClose: typeIs(directive.Directive, "directives.Close") ==> tlen() == old(tlen()) + 1 && tkind(old(tlen())) == kind("printClose") && targ("printClose", 0, old(tlen())) == dyn(directive.Directive, "directives.Close") && result == tres("printClose", old(tlen()))
+//@   ensures [C08] @printAssertion: typeIs(directive.Directive, "directives.Assertion") ==> tlen() == old(tlen()) + 1 && tkind(old(tlen())) == kind("printAssertion") && targ("printAssertion", 0, old(tlen())) == dyn(directive.Directive, "directives.Assertion") && result == tres("printAssertion", old(tlen()))
+//@   ensures [C08] @printInclude: typeIs(directive.Directive, "directives.Include") ==> tlen() == old(tlen()) + 1 && tkind(old(tlen())) == kind("printInclude") && targ("printInclude", 0, old(tlen())) == dyn(directive.Directive, "directives.Include") && result == tres("printInclude", old(tlen()))
+//@   ensures [C08] @printPrice: typeIs(directive.Directive, "directives.Price") ==> tlen() == old(tlen()) + 1 && tkind(old(tlen())) == kind("printPrice") && targ("printPrice", 0, old(tlen())) == dyn(directive.Directive, "directives.Price") && result == tres("printPrice", old(tlen()))
 //
 //@ func (*Printer).PrintDirective
 //@   requires p != nil && renderable(directive)
